@@ -4184,6 +4184,9 @@ impl BytecodeVM {
                         prototype.borrow_mut().prototype = Some(super_proto.cheap_clone());
                     }
 
+                    // Static members are inherited: constructor.__proto__ = superClass
+                    ctor_obj.borrow_mut().prototype = Some(super_ctor.cheap_clone());
+
                     // Store __super__ on constructor for super() calls
                     ctor_obj.borrow_mut().set_property(
                         PropertyKey::String(interp.intern("__super__")),
